@@ -270,7 +270,12 @@ func RoundKeep(p *load.Program, name func(*ssa.Function) string, overlay map[str
 			}
 			*counter++
 			file := p.Fset.Position(s.stmt.Pos()).Filename
+			extraImports = map[string]string{}
+			for nm, path := range missing {
+				extraImports[path] = nm
+			}
 			text, w := buildReplacement(p.Fset, src, cd.fd, cd.obj, cd.pkg, s, *counter, quals)
+			extraImports = nil
 			if w != "" {
 				ok, reason = false, w
 				break
@@ -418,7 +423,14 @@ func pruneUnusedImports(file string, b []byte) []byte {
 		if strings.Contains(nm, ".") || strings.Contains(nm, "-") {
 			continue
 		}
-		cuts = append(cuts, cut{fset.Position(im.Pos()).Offset, fset.Position(im.End()).Offset})
+		st, en := fset.Position(im.Pos()).Offset, fset.Position(im.End()).Offset
+		// a declaration of its own (`import name "path"`, no parentheses) goes as a whole
+		for _, d := range f.Decls {
+			if gd, isGD := d.(*ast.GenDecl); isGD && gd.Tok == token.IMPORT && !gd.Lparen.IsValid() && len(gd.Specs) == 1 && gd.Specs[0] == ast.Spec(im) {
+				st, en = fset.Position(gd.Pos()).Offset, fset.Position(gd.End()).Offset
+			}
+		}
+		cuts = append(cuts, cut{st, en})
 	}
 	if len(cuts) == 0 {
 		return b
@@ -1209,6 +1221,10 @@ func nodeText(fset *token.FileSet, src func(string) []byte, n ast.Node) string {
 	return string(b[ps.Offset:pe.Offset])
 }
 
+// extraImports: imports (path -> local name) that the current inlining adds to the caller's file; set
+// around buildReplacement so that types naming those packages can be written out.
+var extraImports map[string]string
+
 func typeText(t types.Type, pk *packages.Package, file *ast.File) (string, bool) {
 	ok := true
 	imported := map[string]string{} // path -> local name
@@ -1226,6 +1242,9 @@ func typeText(t types.Type, pk *packages.Package, file *ast.File) (string, bool)
 		}
 		if n, found := imported[p.Path()]; found {
 			return n
+		}
+		if n, found := extraImports[p.Path()]; found {
+			return n // an import this round adds to the caller's file
 		}
 		ok = false
 		return p.Name()
@@ -2061,6 +2080,138 @@ func DispatchMethodValues(p *load.Program, overlay map[string][]byte) (map[strin
 					list = x.Body
 				default:
 					return true
+				}
+				// second form: `var f func(...)...; if c1 { f = x.m1 } else if c2 { f = x.m2 } else { <leaves> };
+				// r := f(args); REST`: the call and REST move into each branch that picks a method (the
+				// conditions are evaluated as before; every other branch leaves the statement list)
+				for i := 0; i+2 < len(list); i++ {
+					ds, ok := list[i].(*ast.DeclStmt)
+					if !ok {
+						continue
+					}
+					gd, ok := ds.Decl.(*ast.GenDecl)
+					if !ok || gd.Tok != token.VAR || len(gd.Specs) != 1 {
+						continue
+					}
+					vs, ok := gd.Specs[0].(*ast.ValueSpec)
+					if !ok || len(vs.Names) != 1 || len(vs.Values) != 0 {
+						continue
+					}
+					fobj := pk.TypesInfo.Defs[vs.Names[0]]
+					top, ok := list[i+1].(*ast.IfStmt)
+					if fobj == nil || !ok {
+						continue
+					}
+					mentions := func(nd2 ast.Node) int {
+						k := 0
+						ast.Inspect(nd2, func(m ast.Node) bool {
+							if id, ok := m.(*ast.Ident); ok && pk.TypesInfo.Uses[id] == fobj {
+								k++
+							}
+							return true
+						})
+						return k
+					}
+					var call *ast.CallExpr
+					switch st := list[i+2].(type) {
+					case *ast.AssignStmt:
+						if len(st.Rhs) == 1 {
+							call, _ = st.Rhs[0].(*ast.CallExpr)
+						}
+					case *ast.ExprStmt:
+						call, _ = st.X.(*ast.CallExpr)
+					}
+					if call == nil {
+						continue
+					}
+					cid, ok := call.Fun.(*ast.Ident)
+					if !ok || pk.TypesInfo.Uses[cid] != fobj {
+						continue
+					}
+					uses := 0
+					for _, st := range list[i+2:] {
+						uses += mentions(st)
+					}
+					if uses != 1 {
+						continue
+					}
+					callSt := list[i+2]
+					last := list[len(list)-1]
+					rest := ""
+					if len(list) > i+3 {
+						rest = text(callSt.End(), last.End())
+					}
+					callText := func(m *ast.SelectorExpr) string {
+						return text(callSt.Pos(), cid.Pos()) + text(m.Pos(), m.End()) + text(cid.End(), callSt.End())
+					}
+					leaves := func(b *ast.BlockStmt) bool {
+						if len(b.List) == 0 || mentions(b) > 0 {
+							return false
+						}
+						switch l := b.List[len(b.List)-1].(type) {
+						case *ast.ReturnStmt:
+							return true
+						case *ast.BranchStmt:
+							return l.Tok == token.CONTINUE || l.Tok == token.BREAK || l.Tok == token.GOTO
+						case *ast.ExprStmt:
+							if ce, ok := l.X.(*ast.CallExpr); ok {
+								if id, ok := ce.Fun.(*ast.Ident); ok && id.Name == "panic" {
+									_, isBuiltin := pk.TypesInfo.Uses[id].(*types.Builtin)
+									return isBuiltin
+								}
+							}
+						}
+						return false
+					}
+					var recvObj types.Object
+					picked := 0
+					okShape := true
+					body := func(b *ast.BlockStmt) string {
+						if len(b.List) == 1 {
+							if as2, ok := b.List[0].(*ast.AssignStmt); ok && as2.Tok == token.ASSIGN && len(as2.Lhs) == 1 && len(as2.Rhs) == 1 {
+								if id2, ok := as2.Lhs[0].(*ast.Ident); ok && pk.TypesInfo.Uses[id2] == fobj {
+									m, x := methodValue(as2.Rhs[0])
+									if m == nil || (recvObj != nil && pk.TypesInfo.Uses[x] != recvObj) {
+										okShape = false
+										return ""
+									}
+									recvObj = pk.TypesInfo.Uses[x]
+									picked++
+									return callText(m) + rest
+								}
+							}
+						}
+						if !leaves(b) {
+							okShape = false
+							return ""
+						}
+						return text(b.Lbrace+1, b.Rbrace)
+					}
+					var render func(ifs *ast.IfStmt) string
+					render = func(ifs *ast.IfStmt) string {
+						if ifs.Init != nil || mentions(ifs.Cond) > 0 {
+							okShape = false
+							return ""
+						}
+						out := "if " + text(ifs.Cond.Pos(), ifs.Cond.End()) + " {\n" + body(ifs.Body) + "\n}"
+						switch e := ifs.Else.(type) {
+						case *ast.IfStmt:
+							out += " else " + render(e)
+						case *ast.BlockStmt:
+							out += " else {\n" + body(e) + "\n}"
+						default:
+							okShape = false // no final else: the variable could stay nil
+						}
+						return out
+					}
+					txt := render(top)
+					if !okShape || picked < 2 {
+						continue
+					}
+					repls = append(repls, repl{off(ds.Pos()), off(last.End()), txt})
+					notes = append(notes, fmt.Sprintf("method value chosen by an if chain before the call written as static calls at %s (analysis only)", p.Fset.Position(ds.Pos())))
+					done = true
+					return false
 				}
 				for i := 0; i+2 < len(list); i++ {
 					as, ok := list[i].(*ast.AssignStmt)
